@@ -73,6 +73,15 @@ Definition table_axis : list (string * (list arg -> out)) :=
   ; ("single", fun args => match args with [AZ x] => orarr (single x) | _ => OBad end)
   ; ("flat", fun args => match args with [AL es] => orarr (flat_arr es) | _ => OBad end)
   ; ("empty", fun args => match args with [] => orarr empty | _ => OBad end)
+  (* FromIterator from a filtering iterator: the flat array of the surviving labels (kinds: filter, take_while,
+     skip_while, filter over an array's own iterator); a label survives when it is not a multiple of m *)
+  ; ("collect_filter", fun args => match args with
+       | [AL es; AZ m; AZ kind] =>
+         let keep := fun x : Z => negb ((x mod m) =? 0)%Z in
+         let fix tw (l : list Z) := match l with x :: t => if keep x then x :: tw t else [] | [] => [] end in
+         let fix dw (l : list Z) := match l with x :: t => if keep x then dw t else l | [] => [] end in
+         orarr (flat_arr (if (kind =? 1)%Z then tw es else if (kind =? 2)%Z then dw es else filter keep es))
+       | _ => OBad end)
   ; ("transpose", fun args => match args with
        | [AA sh es; ax] => match optl ax with Some ax => orarr (transpose 0%Z (mka sh es) ax) | None => OBad end
        | _ => OBad end)
@@ -681,7 +690,7 @@ Fixpoint lookup (name : string) (t : list (string * (list arg -> out))) : option
 (* `mon`: public operations without a model (diff, clip, convolve, slice, modf, eig, ...): the harness only judges
    the well-formedness of what they return (the C01 monitor) and answers z(1) when nothing is wrong *)
 Definition dispatch (name : string) (args : list arg) : out :=
-  if String.eqb name "mon" || String.eqb name "monp" then OZ 1 else
+  if String.eqb name "mon" || String.eqb name "monp" || String.eqb name "mone" then OZ 1 else
   match lookup name table with
   | Some f => f args
   | None =>
